@@ -1,5 +1,6 @@
 import LenaModel.DriverUtil
 import LenaModel.Model.C18
+import LenaModel.Model.C18Split
 /-! Model driver for C18.  One request per case (a history), one reply:
   {"nc":n, "hist":[op,…]}  ->  {"ops":[obs,…]}
   op  = {"op":"run","mode":"source"|"sequence"|"hoist"|"hoist_src"|"meta"|"bare_hoist"|"bare_meta",
@@ -9,6 +10,9 @@ import LenaModel.Model.C18
   obs = run:  {"out":[ints],"end":…,"ev":[…],"snaps":[[final0,tmp0,final1,tmp1,…],…],"fs":[{"final":[ints]|null,"tmp":bool},…],
                "ref":{"vals":[ints],"exc":name|null}}      (ref = `pipeFlow` on the file system before the run)
         drop: {"r":"ok"|name,"fs":…}     finalize: {"fs":…}
+  op  = {"op":"splitrun","src":…,"outer":[el,…],"branch":[el,…],"bufsize":n|null,"take":k|null,"fin":…}
+        (Source(src, *outer, Split([Sequence(*branch)], bufsize))(); the case field "split_patched" says which
+        bufsize rule Split.__init__ of the tree has)  ->  like run, without "ref"
 `take = null` becomes a demand that exceeds every flow the pipeline can produce. -/
 open Lean Lena.Drv Lena.C18
 
@@ -87,8 +91,33 @@ def runObs (nc : Nat) (w : World) (r : RunSpec) : World × Json :=
     ("fs", fsJson nc w'.fs),
     ("ref", Json.mkObj [("vals", ofIntList ref.vals), ("exc", ofOpt (fun e => Json.str (excName e)) ref.exc)])])
 
-def stepObs (nc : Nat) (w : World) (j : Json) : Option (World × Json) :=
+def parseSplitRun (nc : Nat) (fs : FS) (j : Json) : Option SplitRunSpec := do
+  let sj := getD j "src"
+  let vals ← intList? (getD sj "vals")
+  let r ← optNat (getD sj "raise")
+  let outer ← (arr? (getD j "outer")).bind (fun a => a.toList.mapM parseEl)
+  let branch ← (arr? (getD j "branch")).bind (fun a => a.toList.mapM parseEl)
+  let bufsize ← optNat (getD j "bufsize")
+  let take ← optNat (getD j "take")
+  let fin ← str? (getD j "fin")
+  let s : SrcSpec := ⟨vals, r⟩
+  let big := bigDemand nc fs s
+  pure ⟨s, outer, branch, bufsize, take.getD (big * big + 1), fin == "leak"⟩
+
+def splitObs (patched : Bool) (nc : Nat) (w : World) (r : SplitRunSpec) : World × Json :=
+  let (w', d) := runSplitOp patched w r
+  (w', Json.mkObj [
+    ("out", ofIntList (d.outs.map (·.1))),
+    ("end", Json.str (endName d.end_)),
+    ("ev", ofList evJson d.evs),
+    ("snaps", ofList (fun o => bitsJson nc o.2) d.outs),
+    ("fs", fsJson nc w'.fs)])
+
+def stepObs (patched : Bool) (nc : Nat) (w : World) (j : Json) : Option (World × Json) :=
   match str? (getD j "op") with
+  | some "splitrun" => do
+    let r ← parseSplitRun nc w.fs j
+    pure (splitObs patched nc w r)
   | some "run" => do
     let r ← parseRun nc w.fs j
     pure (runObs nc w r)
@@ -102,17 +131,17 @@ def stepObs (nc : Nat) (w : World) (j : Json) : Option (World × Json) :=
     some (w', Json.mkObj [("fs", fsJson nc w'.fs)])
   | _ => none
 
-def runHist (nc : Nat) : World → List Json → Option (List Json)
+def runHist (patched : Bool) (nc : Nat) : World → List Json → Option (List Json)
   | _, [] => some []
   | w, j :: js => do
-    let (w', o) ← stepObs nc w j
-    let rest ← runHist nc w' js
+    let (w', o) ← stepObs patched nc w j
+    let rest ← runHist patched nc w' js
     pure (o :: rest)
 
 def handle (j : Json) : Json :=
   match nat? (getD j "nc"), arr? (getD j "hist") with
   | some nc, some h =>
-    match runHist nc World.init h.toList with
+    match runHist ((bool? (getD j "split_patched")).getD false) nc World.init h.toList with
     | some obs => Json.mkObj [("ops", Json.arr obs.toArray)]
     | none => err "bad op"
   | _, _ => err "bad case"
